@@ -48,6 +48,7 @@ def run(F, R, tier):
     r06_3(q, R, spec)
     r06_4(q, R, spec)
     r06_5(q, R, spec)
+    r06_6(F, R)
     return ("normal forms of the 11 default methods and 7 implementation methods vs. spec/quill_remapper.json; override scan over "
             "all workspace impls of ARemapper/BRemapper; key/value terms of every insert in remapper_a/remapper_b; "
             "return/loop structure of map_field_fail, map_method_fail and Vec<S>::get_super_classes; scanner structure of map_desc")
@@ -463,3 +464,53 @@ def _ref_formula(j):
     for x in j[2:]:
         out = (j[0], out, _ref_formula(x))
     return out
+
+
+# ------------------------------------------------------------------------------------ R06.6
+def r06_6(F, R):
+    """The jar-derived super-class provider (dukebox OpenedJar::get_super_classes_provider): the inheritance table the member lookup walks."""
+    from lib import hir as H
+    rid = "R06.6"
+    R.rule(rid, "the super-class provider built from a jar records, for every class and keyed by the class's own name, its super class (if any) "
+                "first and then all of its interfaces, unconditionally (independent of version and access flags: interfaces extend interfaces "
+                "through the same list), and declines the class body (ControlFlow::Break)")
+    db = F.crate("dukebox")
+    cands = [b for b in db.bodies if b.get("name") == "visit_class" and "get_super_classes_provider" in b["key"]]
+    if not R.anchor(rid, "visit_class of the visitor inside OpenedJar::get_super_classes_provider", len(cands) == 1):
+        return
+    b = cands[0]
+    params = b["params"]
+    if not R.anchor(rid, "visit_class has (self, version, access, name, super_class, interfaces)", len(params) == 6, sp=b["sp"]):
+        return
+    ids = [[i for i, _ in H.pat_bindings(p)] for p in params]
+    def mentions(idx):
+        return any(H.mentions_local(b["body"], i) for i in ids[idx])
+    R.inst(rid, "provider:independent-of-version-and-access", not mentions(1) and not mentions(2), sp=b["sp"],
+           got={"version used": mentions(1), "access used": mentions(2)},
+           detail="e.g. skipping the interface list of an interface loses interface-extends-interface edges, so a member inherited through two "
+                  "interface levels is no longer found")
+    inserts = [n for n in H.walk(b["body"]) if n.get("k") == "mcall" and n["name"] == "insert" and H.place_root(n["recv"])[1][-1:] == ["super_classes"]]
+    if R.anchor(rid, "single insert into super_classes", len(inserts) == 1, sp=b["sp"]):
+        ins = inserts[0]
+        key = H.local_of(ins["args"][0])
+        R.inst(rid, "provider:keyed-by-own-name", bool(key) and ids[3] and key[0] == ids[3][0], sp=ins["sp"], got=H.render(ins["args"][0]))
+        R.inst(rid, "provider:insert-unconditional", H.path_conditions(b["body"], ins) == [], sp=ins["sp"])
+    # both sources flow into the recorded set, the super class first
+    order = []
+    for n in H.walk(b["body"]):
+        l = H.local_of(n) if n.get("k") == "path" else None
+        if l and ids[4] and l[0] == ids[4][0] and "super" not in order:
+            order.append("super")
+        if l and ids[5] and l[0] == ids[5][0] and "interfaces" not in order:
+            order.append("interfaces")
+    R.inst(rid, "provider:super-class-then-interfaces", order == ["super", "interfaces"], sp=b["sp"], got=order,
+           detail="declaration order: the super class is searched before the interfaces")
+    # the interfaces are consumed unconditionally (a `for` over them / a chain), not under a condition
+    uses = [n for n in H.walk(b["body"]) if n.get("k") == "path" and H.local_of(n) and ids[5] and H.local_of(n)[0] == ids[5][0]]
+    conds = [H.path_conditions(b["body"], u) for u in uses]
+    R.inst(rid, "provider:all-interfaces-recorded", len(uses) == 1 and conds == [[]], sp=b["sp"], got=[[c[0] for c in cs] for cs in conds],
+           detail="the interface list is consumed once, outside any condition")
+    tail = H.peel(b["body"])
+    brk = [n for n in H.walk(b["body"]) if H.ctor_of(n) and H.ctor_of(n)[1] == "Break"]
+    R.inst(rid, "provider:declines-class-body", len(brk) == 1, sp=b["sp"], nontrivial=False)
+    R.floor(rid, 6)
